@@ -21,10 +21,10 @@ Q_ExpDigs == {48, 49, 50, 51}
 Q_Counts == {-2, -1, 0, 1, 3}
 Q_Den == 16
 Q_Precs == {-1, 0, 1, 2, 3, 5}
-\* full instance: 0 1 5 9, up to 3 digits before / 3 after the point
-F_Digs == {48, 49, 53, 57}
+\* full instance: 0 1 5, up to 3 digits before / 3 after the point
+F_Digs == {48, 49, 53}
 F_MaxDig == 3
-F_ExpLetters == {101, 69, 100, 68}
+F_ExpLetters == {101, 69, 68}
 F_ExpDigs == {48, 49, 50, 51}
 F_Counts == {-10, -2, -1, 0, 1, 3, 9, 99}
 F_Den == 64
